@@ -329,9 +329,14 @@ def c15(sc, tier, seed):
         out, st = run_tlc(sc, module, mc_cfg(module, []), timeout=900)
         require_tlc_clean(st, module)
         v.add_tlc(module, st)
-        cs = [c for c in join_cases(tlc_json_lines(out))
+        allcs = join_cases(tlc_json_lines(out))
+        cs = [c for c in allcs
               if c['steps'][-1]['ideal']['r']['t'] not in ('rand', 'randone', 'randpairs', 'ttl', 'time', 'dead', 'any')]
         cases.extend(sample_cases(cs, quota, seed))
+        # replies with a random choice differ in content between the two executions: they are judged by shape
+        # (nesting, lengths, flattening of pairs) - ShapeMatch of Trace_Resp
+        rcs = [dict(c, rand=1) for c in allcs if c['steps'][-1]['ideal']['r']['t'] in ('rand', 'randone', 'randpairs')]
+        cases.extend(sample_cases(rcs, max(200, quota // 4), seed))
     extra = [['CLIENT', 'LIST'], ['CLIENT', 'INFO'], ['INFO'], ['HELLO'], ['COMMAND', 'COUNT'], ['PING'], ['ECHO', 'x'], ['DBSIZE'],
              ['CLIENT', 'GETNAME'], ['CLIENT', 'ID'], ['TYPE', 'nokey'], ['COMMAND', 'INFO', 'get'], ['COMMAND', 'DOCS', 'get'], ['COMMAND', 'GETKEYS', 'get', 'k']]
     for e in extra:
@@ -339,6 +344,7 @@ def c15(sc, tier, seed):
     for i, c in enumerate(cases):
         c['id'] = i
     pairs = run_pairs(exe, sc, cases)
+    randid = {c['id']: True for c in cases if c.get('rand')}
     # introspection replies contain ids / ports / ages that differ between the two executions: digit runs are
     # normalised on both sides before the comparison (structure and all other text still compared)
     def norm_digits(t):
@@ -371,7 +377,7 @@ def c15(sc, tier, seed):
     shutil.copytree(SPEC, d)
     with open(os.path.join(d, 'pairs.ndjson'), 'w') as f:
         for p in allp:
-            f.write(json.dumps({'r2': p['r2'], 'r3': p['r3']}, separators=(',', ':')) + '\n')
+            f.write(json.dumps({'r2': p['r2'], 'r3': p['r3'], 'rand': 1 if randid.get(p['id']) else 0}, separators=(',', ':')) + '\n')
     cfg = open(os.path.join(SPEC, 'Trace_Resp.cfg')).read().replace('OpenDev = {}', 'OpenDev = ' + tla_set(devs))
     out, st = run_tlc(sc, 'Trace_Resp', cfg, workers=1, timeout=900, tag='resp')
     # run_tlc copies the spec dir afresh: place the pairs file there and run again if it was missing
